@@ -82,6 +82,79 @@ def _claim_bytes():
     return _CACHE['claim'], _CACHE['purchase']
 
 
+# ---- outputs that PAY THE WALLET with an unusual claim/support/purchase payload or name.  Anybody can send
+# such an output to one of our addresses; the reference classifies by script (a claim script locks value in a
+# claim whatever its payload), lbry only supplies well-formed payload bytes as data.
+OWN_NAMES = {'ascii': b'mine', 'nonutf8': b'\xff\xfeodd'}
+OWN_KINDS = ['claim', 'update', 'support_data', 'support', 'purchase']
+OWN_CLAIM_PAYLOADS = ['valid_claim', 'legacy_v1_stream', 'legacy_v1_channel', 'legacy_v0_json', 'json_unknown_version',
+                      'free_text', 'empty', 'one_byte', 'one_byte_zero', 'random32', 'truncated_claim',
+                      'support_payload', 'big_4k']
+OWN_PURCHASE_PAYLOADS = ['valid_purchase', 'P_garbage', 'P_only', 'empty', 'random32']
+
+
+def own_payloads():
+    if 'own' not in _CACHE:
+        import os
+        import json
+        from lbry.schema.support import Support
+        claim, purchase = _claim_bytes()
+        fx = json.load(open(os.path.join(os.path.dirname(os.path.dirname(os.path.abspath(__file__))),
+                                         'fixtures', 'c09', 'own_payloads.json')))
+        sup = Support()
+        sup.emoji = '\U0001f44d'
+        _CACHE['own'] = {
+            'valid_claim': claim,
+            'legacy_v1_stream': bytes.fromhex(fx['legacy_v1_stream']),      # migrates (compat.from_types_v1)
+            'legacy_v1_channel': bytes.fromhex(fx['legacy_v1_channel']),    # migrates to a channel claim
+            'legacy_v0_json': bytes.fromhex(fx['legacy_v0_json']),          # migrates (compat.from_old_json_schema)
+            'json_unknown_version': b'{"ver": "9.9", "title": "x"}',        # JSON, not migratable
+            'free_text': b'hello, this is not a claim',
+            'empty': b'',
+            'one_byte': b'\x07',
+            'one_byte_zero': b'\x00',                                       # the "unsigned" flag byte alone
+            'random32': hashlib.sha256(b'c09 payload').digest(),
+            'truncated_claim': claim[:max(2, len(claim) // 2)],
+            'support_payload': sup.to_bytes(),                               # a Support message where a Claim belongs
+            'big_4k': b'\xa5' * 4096,
+            'valid_purchase': purchase,
+            'P_garbage': b'P\xff\xff\xff',
+            'P_only': b'P',
+        }
+    return _CACHE['own']
+
+
+def own_variants():
+    """Every (kind, payload, name) of the own-output dimension, simplest first."""
+    out = []
+    for kind in ('claim', 'update', 'support_data'):
+        for payload in OWN_CLAIM_PAYLOADS:
+            for nm in ('ascii', 'nonutf8'):
+                out.append([kind, payload, nm])
+    out += [['support', 'none', nm] for nm in ('ascii', 'nonutf8')]
+    out += [['purchase', payload, 'ascii'] for payload in OWN_PURCHASE_PAYLOADS]
+    return out
+
+
+def own_outputs(variant, amount, h160, cid):
+    """The output(s) replacing an 'OWN' entry: [(amount, script)]."""
+    kind, payload, nm = variant
+    name = OWN_NAMES[nm]
+    tail = ER.p2pkh(h160)
+    data = own_payloads().get(payload, b'')
+    if kind == 'claim':
+        return [(amount, ER.claim_name_script(name, data, tail))]
+    if kind == 'update':
+        return [(amount, ER.update_claim_script(name, cid, data, tail))]
+    if kind == 'support_data':
+        return [(amount, ER.support_claim_data_script(name, cid, data, tail))]
+    if kind == 'support':
+        return [(amount, ER.support_claim_script(name, cid, tail))]
+    if kind == 'purchase':      # payment to us at this position, purchase data right behind it
+        return [(amount, tail), (0, ER.op_return(data))]
+    raise ValueError(kind)
+
+
 # third-party output kinds: name -> (script, why it is in the alphabet)
 def third_scripts():
     claim, purchase = _claim_bytes()
@@ -154,6 +227,8 @@ class Built:
                         outs.append((amount, ER.update_claim_script(b'mine', cid, claim, ER.p2pkh(h))))
                     elif kind == 'support':
                         outs.append((amount, ER.support_claim_script(b'mine', cid, ER.p2pkh(h))))
+                    elif kind == 'OWN':
+                        outs.extend(own_outputs(spec['own'], amount, h, cid))
                     else:
                         raise ValueError(kind)
                 if third and third != 'none' and not spec.get('third_explicit'):
